@@ -5,6 +5,7 @@ import (
 	"go/ast"
 	"go/token"
 	"go/types"
+	"strings"
 
 	"golang.org/x/tools/go/packages"
 )
@@ -289,4 +290,148 @@ func checkEOFCursor(p *Prog, r *Result, pkg *packages.Package, rule string) {
 	if n == 0 {
 		r.Bad(rule, "syntax.(Parser).rune#stores the sentinel", fd.Pos(), "rune() never stores the end-of-input sentinel: the rule no longer sees the construct it is about")
 	}
+}
+
+// R07g: a multi-byte rune cut by the end of a read is completed by reading on. rune() decides "more bytes are needed"
+// on the decoding path; when that decision is a comparison of the number of unread bytes with a length (and not
+// utf8.FullRune, which knows every encoding), the length must be able to reach utf8.UTFMax — a table that stops at
+// three-byte sequences reports a four-byte rune cut after its first, second or third byte as invalid UTF-8, but only
+// when a read happens to end there.
+func checkPartialRuneCompleted(p *Prog, r *Result, pkg *packages.Package, rule string) int {
+	info := pkg.TypesInfo
+	fd := p.FuncDecl("syntax", "Parser.rune")
+	fill := lookupFunc(pkg, "Parser.fill")
+	if fd == nil || fill == nil {
+		r.Undecided(rule, "syntax.(Parser).rune", token.NoPos, "anchors not found")
+		return 0
+	}
+	computeConstReturnMax(p, info)
+	g := NewFGraph(info, fd.Body, nil)
+	n := 0
+	for _, cs := range findCalls(g, func(c *ast.CallExpr) bool { return calleeOf(info, c) == fill }) {
+		// only the call on the decoding path: under a test of utf8.RuneError
+		onDecode := underEdges(g, cs.blk, func(e *FEdge) bool {
+			be, ok := ast.Unparen(e.Cond).(*ast.BinaryExpr)
+			if !ok || be.Op != token.EQL || !e.Pol {
+				return false
+			}
+			se, ok := ast.Unparen(be.Y).(*ast.SelectorExpr)
+			return ok && se.Sel.Name == "RuneError"
+		})
+		if !onDecode {
+			continue
+		}
+		n++
+		key := funcKey("syntax", fd) + "#a rune cut by the end of a read is completed, whatever its length"
+		var bound int64 = -1
+		full := false
+		// the conditions of the if statements around the call, one conjunct at a time
+		var stack []ast.Node
+		ast.Inspect(fd.Body, func(m ast.Node) bool {
+			if m == nil {
+				stack = stack[:len(stack)-1]
+				return true
+			}
+			stack = append(stack, m)
+			if m != ast.Node(cs.call) {
+				return true
+			}
+			for i := len(stack) - 1; i >= 0; i-- {
+				is, ok := stack[i].(*ast.IfStmt)
+				if !ok {
+					continue
+				}
+				for _, cj := range conjuncts(is.Cond) {
+					cj = ast.Unparen(cj)
+					pol := true
+					if ue, ok := cj.(*ast.UnaryExpr); ok && ue.Op == token.NOT {
+						cj, pol = ast.Unparen(ue.X), false
+					}
+					if c, ok := cj.(*ast.CallExpr); ok && !pol {
+						if fn := calleeOf(info, c); fn != nil && fn.Pkg() != nil && fn.Pkg().Path() == "unicode/utf8" && fn.Name() == "FullRune" {
+							full = true
+						}
+					}
+					if _, ok := cj.(*ast.BinaryExpr); ok && pol {
+						if k, ok := unreadBound(info, &FEdge{Cond: cj, Pol: true}); ok && k > bound {
+							bound = k
+						}
+					}
+				}
+			}
+			return true
+		})
+		switch {
+		case full:
+			r.OK(rule, key, cs.call.Pos(), "the refill is decided by utf8.FullRune on the unread bytes")
+		case bound >= 0 && bound < 4:
+			r.Bad(rule, key, cs.call.Pos(), fmt.Sprintf("the refill on the decoding path is decided by comparing the number of unread bytes with a length that is at most %d: a four-byte encoding (any rune outside the BMP) cut by the end of a read is not completed and is reported as invalid UTF-8 — for the same input that parses when the bytes arrive together", bound))
+		default:
+			r.OK(rule, key, cs.call.Pos(), "the refill on the decoding path is not decided by a length below utf8.UTFMax")
+		}
+	}
+	if n == 0 {
+		r.Undecided(rule, funcKey("syntax", fd)+"#refill on the decoding path", fd.Pos(), "rune() no longer calls fill() under a test of utf8.RuneError: the rule does not see how a cut rune is completed")
+	}
+	return n
+}
+
+// R07h: the literal being read lives in its own buffer. fill() slides the read buffer and reads over it, so a literal
+// that is a slice of p.bs or p.readBuf is overwritten by the next refill that brings bytes — and the appends that follow
+// write into unread input. Every store to Parser.litBs is nil, a slice of litBuf or of litBs itself, or an append onto
+// one of those.
+func checkLiteralOwnsItsBytes(p *Prog, r *Result, pkg *packages.Package, rule string) int {
+	info := pkg.TypesInfo
+	own := func(e ast.Expr) bool {
+		for {
+			e = ast.Unparen(e)
+			switch x := e.(type) {
+			case *ast.SliceExpr:
+				e = x.X
+				continue
+			case *ast.SelectorExpr:
+				fv := selectorField(info, x)
+				return fv != nil && (fv.Name() == "litBuf" || fv.Name() == "litBs")
+			}
+			return false
+		}
+	}
+	n := 0
+	for _, fd := range p.AllFuncDecls("syntax") {
+		if fd.Body == nil || strings.HasSuffix(p.Position(fd.Pos()), "_test.go") {
+			continue
+		}
+		k := 0
+		ast.Inspect(fd.Body, func(m ast.Node) bool {
+			as, ok := m.(*ast.AssignStmt)
+			if !ok || len(as.Lhs) != len(as.Rhs) {
+				return true
+			}
+			for i, l := range as.Lhs {
+				fv := selectorField(info, l)
+				if fv == nil || fv.Name() != "litBs" || typeName(derefType(info.TypeOf(ast.Unparen(l).(*ast.SelectorExpr).X))) != "Parser" {
+					continue
+				}
+				k++
+				n++
+				key := fmt.Sprintf("%s#store %d to litBs is the literal's own storage", funcKey("syntax", fd), k)
+				rhs := ast.Unparen(as.Rhs[i])
+				ok2, how := false, ""
+				switch {
+				case isNilIdent(info, rhs):
+					ok2, how = true, "nil"
+				case own(rhs):
+					ok2, how = true, "a slice of the literal buffer"
+				default:
+					if c, isCall := rhs.(*ast.CallExpr); isCall && isBuiltinCall(info, c, "append") && len(c.Args) > 0 && own(c.Args[0]) {
+						ok2, how = true, "an append onto the literal buffer (the bytes are copied)"
+					}
+				}
+				r.Check(ok2, rule, key, as.Pos(), how,
+					fmt.Sprintf("the literal is made to share storage with %s: fill() slides the read buffer and reads new bytes over it, so when a refill happens before the literal ends its first bytes change under it, and appending to it overwrites input that was not read yet — the word differs depending on where the reader's chunks end", exprString(rhs)))
+			}
+			return true
+		})
+	}
+	return n
 }
